@@ -11,6 +11,7 @@ import (
 /* internal constants & structs  {{{ */
 
 const maxRegisters = 200
+const maxUpvalues = 255 // FunctionProto.NumUpvalues is a uint8
 
 type expContextType int
 
@@ -1360,6 +1361,9 @@ func compileFunctionExpr(context *funcContext, funcexpr *ast.FunctionExpr, ec *e
 	context.Proto.Code = context.Code.List()
 	context.Proto.DbgSourcePositions = context.Code.PosList()
 	context.Proto.DbgUpvalues = context.Upvalues.Names()
+	if len(context.Proto.DbgUpvalues) > maxUpvalues {
+		raiseCompileError(context, context.Proto.LineDefined, "function has more than %d upvalues", maxUpvalues)
+	}
 	context.Proto.NumUpvalues = uint8(len(context.Proto.DbgUpvalues))
 	for _, clv := range context.Proto.Constants {
 		sv := ""
